@@ -9,6 +9,7 @@ import (
 	"math"
 	"reflect"
 	"sync"
+	"sync/atomic"
 	"time"
 	"unsafe"
 
@@ -255,12 +256,20 @@ func vModelBitmapRange(dst bitmap.Bitmap, fn func(x uint32)) {
 func vModelBitmapFilter(dst *bitmap.Bitmap, f func(x uint32) bool) {
 	x := vNondet[uint32]()
 	d := *dst
+	vFilterBit, vFilterAsked = x, false
 	if int(x>>6) < len(d) && vBit(d, x) {
+		vFilterAsked = true
 		if !f(x) {
 			d[x>>6] &^= 1 << (x & 63)
 		}
 	}
 }
+
+// ghost: the bit the last Filter call considered, and whether it was set (so that the delegate was asked)
+var (
+	vFilterBit   uint32
+	vFilterAsked bool
+)
 
 // vLastCount is ghost: the value the last bitmap.Count call returned.
 var vLastCount int
@@ -632,17 +641,6 @@ func vModelBitmapMaxOf(src []int64, filter bitmap.Bitmap) (int64, bool) {
 	return vKernelValue, vKernelHit
 }
 
-// bitmap.Clone(into): a copy of the receiver (the real one reuses the backing array of *into; here a fresh array).
-//
-//@ model bitmap.(Bitmap).Clone
-func vModelBitmapClone(dst bitmap.Bitmap, into *bitmap.Bitmap) bitmap.Bitmap {
-	out := make(bitmap.Bitmap, len(dst))
-	copy(out, dst)
-	if into != nil {
-		*into = out
-	}
-	return out
-}
 
 // intmap.Sync as a map from the 32-bit hash to a location (ghost map; one table per contract).
 var vIntmap map[uint32]uint32
@@ -683,12 +681,18 @@ var (
 	vLoadName      string
 	vLoadResult    *column
 	vLoadFirst     *column // result of the first lookup since vLoadCalls was reset
+	vLoadForce     bool    // the lookup returns vLoadForced (nil: not found)
+	vLoadForced    *column
 )
 
 //@ model column.(*columns).Load
 func vModelColumnsLoad(c *columns, name string) (*column, bool) {
 	vLoadCalls++
 	vLoadName = name
+	if vLoadForce { // a lemma fixed what the name resolves to
+		vLoadResult = vLoadForced
+		return vLoadForced, vLoadForced != nil
+	}
 	if vNondet[bool]() {
 		vLoadResult = nil
 		if vLoadCalls == 1 {
@@ -707,6 +711,25 @@ func vModelColumnsLoad(c *columns, name string) (*column, bool) {
 		vLoadFirst = col
 	}
 	return col, true
+}
+
+// bitmap.Clone(into): the receiver's words are copied over the start of *into. If *into is at least as long it keeps
+// its length AND ITS TAIL (the returned view is cut to the receiver's length, *into is not); if it is shorter it
+// becomes an exact copy (the real code re-extends its backing array or reallocates: here always fresh storage).
+//
+//@ model bitmap.(Bitmap).Clone
+func vModelBitmapClone(dst bitmap.Bitmap, into *bitmap.Bitmap) bitmap.Bitmap {
+	if into != nil && len(*into) >= len(dst) {
+		cur := *into
+		copy(cur, dst)
+		return cur[:len(dst)]
+	}
+	out := make(bitmap.Bitmap, len(dst))
+	copy(out, dst)
+	if into != nil {
+		*into = out
+	}
+	return out
 }
 
 // sync.Pool as a ghost bag: Put counts and remembers the item, Get yields an arbitrary non-nil page or transaction
@@ -862,4 +885,20 @@ func vModelColumnsRangeUntil(c *columns, fn func(column *column) error) error {
 	col := vNondet[*column]()
 	vAssume(col != nil)
 	return fn(col)
+}
+
+// The registry's atomic.Value as ghost state: Load yields the entry list last stored (copy-on-write is the code's
+// business: it is what the lemmas on Store/Delete* look at).
+var (
+	vRegistry       []columnEntry
+	vRegistryStores int
+)
+
+//@ model atomic.(*Value).Load
+func vModelAtomicValueLoad(v *atomic.Value) any { return vRegistry }
+
+//@ model atomic.(*Value).Store
+func vModelAtomicValueStore(v *atomic.Value, x any) {
+	vRegistry = x.([]columnEntry)
+	vRegistryStores++
 }
